@@ -1563,8 +1563,91 @@ def abandoned_stage(ctx, prop):
     ctx.extra["abandoned_stage_runs"] = n
 
 
+def probe_gather_lost_update(ctx):
+    """
+    NAMED PROBE - the Lean refutation witness `gather_nonatomic_lost_update_preempted` replayed on the REAL
+    `gather_futures`: two pending futures; worker 0 (this thread) runs `on_finish(f0)` under an opcode tracer
+    (`sys.settrace`, `f_trace_opcodes`) that, at the `STORE_DEREF done` of `done += 1` - i.e. AFTER the LOAD, BEFORE the
+    STORE - lets worker 1 (a real second thread) complete `f1` and run its whole `on_finish(f1)`; then worker 0 goes on.
+    Model schedule: LOAD0 | LOAD1 STORE1 TEST1 | STORE0 TEST0 = [0, 1, 1, 1, 0, 0] (RuntimeRace.lean). If one increment
+    is lost, both callbacks have returned, every future is complete and the aggregate Future is never set: "execution
+    always completes once all resolvers have completed" is false for that interleaving. With a lock around the increment
+    (theorems gather_locked_sets_outer / gather_atomic_sets_outer; proposed_fixes/C08-gather-counter-lock.patch) worker 1
+    waits at the lock, nothing is lost and the probe stays silent. The preemption is FORCED: stock CPython 3.12 with the GIL
+    switches threads only at eval-breaker checks, none of which lies between the LOAD and the STORE.
+    """
+    import dis
+    import sys
+    import threading
+    from concurrent.futures import Future
+    from py_gql.execution.runtime import threadpool as tp
+
+    def find(code, name):
+        for c in code.co_consts:
+            if hasattr(c, "co_name"):
+                if c.co_name == name:
+                    return c
+                r = find(c, name)
+                if r is not None:
+                    return r
+        return None
+    gather = getattr(tp, "gather_futures", None)
+    code = find(gather.__code__, "on_finish") if gather is not None else None
+    if code is None:
+        ctx.notes.append("gather-lost-update probe: gather_futures.on_finish not found (shape changed): probe skipped")
+        return True
+    ins_at = {i.offset: i for i in dis.get_instructions(code)}
+    rmw = [i.opname for i in ins_at.values() if i.argval == "done" and i.opname in ("LOAD_DEREF", "STORE_DEREF")]
+    ctx.extra["gather_counter_bytecode"] = rmw          # LOAD_DEREF, STORE_DEREF, ...: the increment is not one instruction
+    f0, f1 = Future(), Future()
+    outer = gather([f0, f1])
+    st = {"fired": False, "inside": None, "t1": None}
+
+    def local(frame, event, arg):
+        if event == "opcode" and not st["fired"]:
+            ins = ins_at.get(frame.f_lasti)
+            if ins is not None and ins.opname == "STORE_DEREF" and ins.argval == "done":
+                st["fired"] = True
+                t1 = threading.Thread(target=lambda: f1.set_result(1), daemon=True)
+                st["t1"] = t1
+                t1.start()
+                t1.join(0.5)          # with a lock around the increment worker 1 blocks here: go on after the window
+                st["inside"] = not t1.is_alive()
+        return local
+
+    def tracer(frame, event, arg):
+        if event == "call" and frame.f_code is code and not st["fired"]:
+            frame.f_trace_opcodes = True
+            sys.settrace(tracer)          # CPython 3.12: re-instrument so that opcode events are delivered for this frame
+            return local
+        return None
+    old = sys.gettrace()
+    sys.settrace(tracer)
+    try:
+        f0.set_result(0)
+    finally:
+        sys.settrace(old)
+    ctx.count()
+    if not st["fired"]:
+        ctx.notes.append("gather-lost-update probe: no opcode event at the increment (tracing unavailable): probe skipped")
+        return True
+    st["t1"].join(5)
+    ctx.stat("probe:gather-lost-update:" + ("interleaved" if st["inside"] else "worker-1-waited"))
+    if st["t1"].is_alive() or not (f0.done() and f1.done()):
+        return True                      # did not run to the end: nothing to judge
+    if not outer.done():
+        ctx.fail("c08:gather-lost-update:forced-preemption-between-load-and-store",
+                 "gather_futures over two futures, worker 1's on_finish interleaved between the LOAD and the STORE of worker 0's "
+                 "`done += 1`: both futures complete, both callbacks returned, the aggregate Future is never set "
+                 "(Lean: gather_nonatomic_lost_update_preempted)",
+                 {"probe": "gather-lost-update", "model_schedule": [0, 1, 1, 1, 0, 0], "bytecode": rmw})
+        return False
+    return True
+
+
 def stages(ctx, chk):
     return [
+        ("gather-lost-update", lambda: probe_gather_lost_update(ctx)),
         ("generator-history", lambda: probe_generator_history(ctx, "one" if ctx.seed % 2 == 0 else "nums")),     # before anything else touches the runtimes
         ("streams", lambda: run_streams(ctx, chk)),
         ("real-pool", lambda: real_pool_stage(ctx, "C08", n_random=6 if ctx.tier == "quick" else 40)),
@@ -1593,6 +1676,8 @@ def run(ctx):
 def replay(ctx, data):
     W.quiet()
     inp = data.get("input", {})
+    if inp.get("probe") == "gather-lost-update":
+        return probe_gather_lost_update(ctx)
     if inp.get("probe") == "stage":
         before = len(ctx.found)
         try:
